@@ -74,6 +74,31 @@ func footprint(r *ev.Run) {
 
 // multiRecord: names whose HTTPS RRset has several records (out of priority order; alias-mode record in the middle):
 // two lookups within the TTL and one after it give the same content, none panics, and nothing handed out earlier changes.
+// constructors: every exported way to obtain a DoH Resolver gives one that caches (the histories use NewResolver only).
+func constructors(r *ev.Run) {
+	srv := &dohmem.Server{}
+	dns.VerifRoundTripper = srv
+	clock := time.Unix(1000, 0)
+	restore := ech.VerifSetTimeNow(func() time.Time { return clock })
+	defer restore()
+	srv.Zone = ZoneV0
+	nr, _ := ech.NewResolver("https://doh.test/dns-query")
+	for name, res := range map[string]*ech.Resolver{"CloudflareResolver": ech.CloudflareResolver(), "GoogleResolver": ech.GoogleResolver(), "WikimediaResolver": ech.WikimediaResolver(), "NewResolver": nr, "DefaultResolver": ech.DefaultResolver} {
+		srv.Reset()
+		_, err1 := res.Resolve(context.Background(), "n1.example")
+		first := len(srv.Queries())
+		clock = clock.Add(time.Second) // n1's records live 2 s or longer
+		_, err2 := res.Resolve(context.Background(), "n1.example")
+		again := len(srv.Queries()) - first
+		oc := "constructor -> caching resolver"
+		if err1 != nil || err2 != nil || first == 0 || again != 0 {
+			oc = "constructor -> NOT caching"
+			r.Violation("constructor-without-cache:"+name, fmt.Sprintf("a resolver from %s: first lookup %d upstream queries (%v), the same lookup one second later %d more (%v); every record of the answers lives 2 s or longer", name, first, err1, again, err2), name)
+		}
+		r.Eval("constructor:"+name, oc)
+	}
+}
+
 func multiRecord(r *ev.Run) {
 	srv := &dohmem.Server{}
 	dns.VerifRoundTripper = srv
@@ -162,6 +187,7 @@ func Run(r *ev.Run) {
 	}
 	footprint(r)
 	multiRecord(r)
+	constructors(r)
 	interleavings(r)
 	if os.Getenv("VERIF_RACE_PASS") != "0" {
 		racePass(r) // supplementary and sampled; reported separately, never counted as exploration
